@@ -163,3 +163,11 @@ Definition op_put_obs (c : (N * text * text * option motion * nat * nat) * bool 
   let s := match m with Some m => run_op k ins t m count i | None => run_lines k ins t count i end in
   let s' := put after pc s in
   (o_text s', N.of_nat (o_cur s'), o_reg s').
+
+(** an operator over a word text object: (operator, typed text, text, WORD?, "a" rather than "i"?, cursor) *)
+Definition obj_obs (c : N * text * text * bool * bool * nat) : text * N * option (bool * text) :=
+  let '(k, ins, t, big, include, i) := c in
+  let k := if k =? 0 then OpDelete else if k =? 1 then OpYank else OpChange in
+  let r := word_object big include t i in
+  let s := apply_op k ins (mkO t i None) (match k with OpDelete => delete_promote t r | _ => r end) in
+  (o_text s, N.of_nat (o_cur s), o_reg s).
